@@ -51,3 +51,15 @@ Theorem C05_inv_check_means_partition : forall rd P, inv_check rd P = Ok tt ->
     NoDup (reach ++ o_flrun o ++ o_free o).
 Proof. exact inv_check_partition. Qed.
 Print Assumptions C05_inv_check_means_partition.
+
+(* ---- the engine model: every state a history of transactions reaches satisfies the strict tree invariant (sorted keys inside
+   their separators' intervals, separator = first key of its page, no page named twice in a bucket) and the allocation invariant
+   (free and pending ids disjoint from every reachable page run and from the free-list run). `txs_ok` carries the side conditions
+   (the model's fuels; the allocation half of each NEW state is the evaluated hypothesis of props/C01.v, so for that half this is
+   the statement that the hypothesis propagates, not a proof of it). ---- *)
+From Jamm Require Engine EngineTxInvFacts EngineRefines EngineCorollaries.
+Theorem C05_partial_engine_states_well_formed : forall P txs st', (0 < P)%N -> EngineRefines.txs_ok (Engine.init_db P) txs ->
+  EngineRefines.run_txs (Engine.init_db P) txs = Engine.Ok st' ->
+  EngineTxInvFacts.db_strict st' /\ EngineRefines.db_alloc_ok st'.
+Proof. exact EngineCorollaries.reachable_states_ok. Qed.
+Print Assumptions C05_partial_engine_states_well_formed.
